@@ -201,6 +201,9 @@ func (w *world) enabled(m *simMenu, cnt simCounters) []simEvent {
 		}
 		// replication drivers
 		for _, id := range sortedDriverIDs(n.drivers) {
+			if w.opt.NoRepl {
+				break
+			}
 			d := n.drivers[id]
 			// updates a stream handed over before it ended are still the leader's to consume
 			if len(d.updCh) > 0 && r.state == Leader && r.ldr.replUpdateCh != nil && (d.live() || r.ldr.startIndex == d.repl.ldrStartIndex) {
